@@ -207,6 +207,54 @@ def _worker(args):
                     if ms and ms.responses:
                         deref(url, ms.responses[0].href, ("collection", "calendar"), "proppatch-response", nclass)
                 s.req("DELETE", url)
+            elif kind == "kind":
+                # every kind of collection that MKCOL / MKCALENDAR can make: with one member and one nested collection in it,
+                # Depth 1 lists exactly itself, the member and the nested collection, and each of those hrefs resolves
+                ckind = name
+                url = p + "/user/calendars/kind-%s/" % ckind
+                if ckind == "mkcalendar":
+                    rc = s.req("MKCALENDAR", url)
+                elif ckind == "plain":
+                    rc = s.req("MKCOL", url)
+                else:
+                    rts = {"calendar": ["{DAV:}collection", "{%s}calendar" % dav.CAL], "addressbook": ["{DAV:}collection", "{%s}addressbook" % dav.CARD],
+                           "subscription": ["{DAV:}collection", "{http://calendarserver.org/ns/}subscribed"], "schedule-inbox": ["{DAV:}collection", "{%s}schedule-inbox" % dav.CAL]}[ckind]
+                    rc = s.req("MKCOL", url, dav.XML_CT, dav.mkcol_body(resourcetypes=rts))
+                stats["outcomes"].add(("mk-kind", ckind, rc.status))
+                if rc.status != 201:
+                    continue
+                isab = ckind == "addressbook"
+                mname = "m.vcf" if isab else "m.ics"
+                rm = s.req("PUT", url + mname, {"Content-Type": B.CT_VCF if isab else B.CT_ICS}, B.CARD_BODIES["K"] if isab else B.ics("c16-kind-%s" % ckind, "kind test"))
+                rn = s.req("MKCOL", url + "nested/")
+                want = {url.rstrip("/")}
+                if dav.effective_status(rm) in (201, 204):
+                    want.add(url + mname)
+                if rn.status == 201:
+                    want.add(url + "nested")
+                r = s.req("PROPFIND", url, dict(dav.XML_CT, Depth="1"), dav.propfind_body([dav.P_GETETAG, dav.P_RESOURCETYPE]))
+                stats["listings"] += 1
+                ms = dav.parse_multistatus(r.body) if r.status == 207 else None
+                if ms is None or ms.parse_error:
+                    vio("listing-fails:kind-%s" % ckind, "PROPFIND Depth 1 on a %s collection answered %s" % (ckind, r.status), {"url": url})
+                else:
+                    got = {urllib.parse.unquote(dav.resolve_href(url, x.href or "")).rstrip("/") for x in ms.responses}
+                    if got != want:
+                        vio("listing-incomplete:kind-%s" % ckind, "Depth 1 listing of a %s collection shows %s, its contents are %s" % (ckind, sorted(got), sorted(want)), {"url": url})
+                    for x in ms.responses:
+                        t = urllib.parse.unquote(dav.resolve_href(url, x.href or "")).rstrip("/")
+                        if t == url + mname:
+                            g = s.req("GET", dav.resolve_href(url, x.href))
+                            stats["hrefs_dereferenced"] += 1
+                            if g.status != 200:
+                                vio("href-does-not-resolve:kind-%s" % ckind, "member href %r of a %s collection answers %s" % (x.href, ckind, g.status), {"href": x.href})
+                        elif t == url + "nested":
+                            deref(url, x.href, ("collection", "collection"), "propfind-depth1-nested", "kind-" + ckind)
+                r0 = s.req("PROPFIND", url, dict(dav.XML_CT, Depth="0"), dav.propfind_body([dav.P_RESOURCETYPE]))
+                ms0 = dav.parse_multistatus(r0.body) if r0.status == 207 else None
+                if ms0 is None or ms0.parse_error or len(ms0.responses) != 1:
+                    vio("depth0-on-collection-not-single:kind-%s" % ckind, "PROPFIND Depth 0 on a %s collection gave %s responses" % (ckind, len(ms0.responses) if ms0 and not ms0.parse_error else None), {"url": url})
+                s.req("DELETE", url)
             elif kind == "discovery":
                 # href-valued properties on root, principal and home sets
                 for path in ("/", "/user/", "/user/calendars/", "/user/calendars/calendar/"):
@@ -258,6 +306,8 @@ def run(tier, workers=None):
                 continue
             cases.append(("collection", c, (parent, method, n)))
     cases.append(("discovery", "plain", None))
+    for ck in ("plain", "mkcalendar", "calendar", "addressbook", "subscription", "schedule-inbox"):
+        cases.append(("kind", "kind", ck))
     jobs = []
     for cfg in cfgs:
         k = nw if cfg.front != "proc" else 4
